@@ -605,6 +605,9 @@ func (f *Font) NormalizeVariations(coords []float32) []VarCoord {
 
 	// now applying 'avar'
 	for i, av := range f.avar.AxisSegmentMaps {
+		if i >= len(normalized) { // 'avar' has more axes than 'fvar'
+			break
+		}
 		l := av.AxisValueMaps
 		for j := 1; j < len(l); j++ {
 			previous, pair := l[j-1], l[j]
